@@ -307,6 +307,34 @@ def run(ctx):
                 ok = ok and first is not None and first[1] in ("lengthfield", "countfield")
         if fi is not None:
             ctx.ob("C04.R5", fi, ok, "%s processes the length/count field first, then the payload (as the macro's expansion does)" % q, key="field first")
+            # exact shape of what the closure computes, stated against the macro's documented expansion
+            shape = bool(lst)
+            for em, r, ts, fps in lst:
+                for p in fps.get("__template__", []):
+                    if not p.returns:
+                        continue
+                    subs = [e for e in p.events if e.kind == "SUB"]
+                    io = ("param", "io")
+                    if q == "PascalString._emitparse":
+                        # Prefixed(lengthfield, GreedyBytes) decoded with the encoding: read exactly the announced length, decode it
+                        rd = [e for e in p.events if e.kind == "READ"]
+                        shape = shape and len(subs) == 1 and len(rd) == 1 and rd[0]["length"] == subs[0]["res"] and rd[0]["stream"] == io \
+                            and p.retval == ("call", ("attr", rd[0]["res"], "decode"), (("free", "encoding"),), ())
+                    elif q == "PrefixedArray._emitparse":
+                        # count elements, each parsed once, in order, collected in a ListContainer
+                        cnt = [e for e in subs if e["target"][1] == "countfield"]
+                        el = [e for e in subs if e["target"][1] == "subcon"]
+                        rv = p.retval
+                        shape = shape and len(cnt) == 1 and len(el) == 1 and rv is not None and rv[0] == "new" and rv[1] == "ListContainer" and len(rv[3]) == 1 and rv[3][0][0] == "comp" \
+                            and rv[3][0][2] == el[0]["res"] and rv[3][0][3] == ((("call", ("free", "range"), (cnt[0]["res"],), ()), ()),)
+                    elif q == "PrefixedArray._emitbuild":
+                        # the count field builds len(obj), every element of obj is built once in order, the expression evaluates to obj
+                        cnt = [e for e in subs if e["target"][1] == "countfield"]
+                        el = [e for e in subs if e["target"][1] == "subcon"]
+                        good_cnt = all(e["obj"] == ("call", ("free", "len"), (OBJ,), ()) for e in cnt)
+                        good_el = all(e["obj"][0] == "elem" and e["obj"][1] == OBJ for e in el)
+                        shape = shape and good_cnt and good_el and (bool(cnt) or bool(el))
+            ctx.ob("C04.R5", fi, shape, "%s computes exactly what the macro's expansion computes (announced length read and decoded / count elements parsed in order / len(obj) then every element built)" % q, key="closure shape")
     # every emitter closure a macro patches onto its result is either covered by the dedicated rule above or, at least, keeps the value
     # convention of generated build code (an expression that evaluates to the object built -- what the enclosing Struct stores into the
     # context): no branch of it is the constant None.  Anything else about an unlisted closure is undecided (reported as such).
@@ -325,7 +353,7 @@ def run(ctx):
                         bad.append(N.show(rv)[:80])
             ctx.ob("C04.R5", fi, not bad, "%s: generated build code evaluates to the built object on every branch, never to None (%s)" % (q, bad[:1]), key="build value")
         ctx.error("C04.R5 undecided: %s is an emitter closure patched by a macro for which no dedicated rule exists; its agreement with the macro's expansion is not decided" % q)
-    ctx.floor("C04.R5", 20)
+    ctx.floor("C04.R5", 23)
 
     # ---------------------------------------------------------------- R6 prologue names (shared with C11.R5)
     C11.prologue_check(ctx, "C04.R6")
